@@ -154,7 +154,42 @@ def run_codec(ctx, cfg="default"):
             ctx.ok("codec", key, "written and read with %s" % sorted(writers[v] & readers))
 
 
+def run_copy(ctx):
+    """the two event converters copy EVERY payload entry: in `From<&Event> for SerializableEvent` and `From<SerializableEvent> for
+    Event` the loop over the source map inserts each (key, value) unconditionally — no key-dependent `if` / `continue` /
+    `filter` around the insert (a field skipped by name is missing from the restored event)"""
+    from vpr import hirq as H
+    F = ctx.facts()
+    convs = [p for p in F.find_fns(r"^<varpulis_runtime::persistence::SerializableEvent as core::convert::From<&?varpulis_runtime::event::Event>>::from$|^<varpulis_runtime::event::Event as core::convert::From<varpulis_runtime::persistence::SerializableEvent>>::from$|<impl core::convert::From<varpulis_runtime::persistence::SerializableEvent> for varpulis_runtime::event::Event>::from$", "hir")]
+    ctx.floor("copy", "Event <-> SerializableEvent converters", len(convs), 2)
+    for p in convs:
+        h = F.hir(p)
+        name = "Event->SerializableEvent" if p.startswith("<varpulis_runtime::persistence::SerializableEvent") else "SerializableEvent->Event"
+        loops = [x for x in H.walk(h["body"]) if x.get("k") == "for"]
+        its = [x for x in H.walk(h["body"]) if x.get("k") == "mcall" and x["method"] in ("filter", "filter_map", "skip", "take", "skip_while", "take_while", "retain")]
+        if not loops and not any(x.get("k") == "mcall" and x["method"] == "collect" for x in H.walk(h["body"])):
+            ctx.anchor_lost("copy", "%s: no loop / collect over the payload map" % name)
+            continue
+        bad = None
+        for lp in loops:
+            ins = [x for x in H.walk(lp["body"]) if x.get("k") == "mcall" and x["method"] == "insert"]
+            if not ins:
+                continue
+            for x in H.walk(lp["body"]):
+                if x.get("k") == "if" and any(id(y) == id(ins[0]) for y in H.walk(x)):
+                    bad = ("an `if` around the insert (%s)" % H.show(x["cond"])[:50], x["sp"])
+                if x.get("k") == "continue":
+                    bad = ("a `continue` in the copy loop", x.get("sp"))
+        if its:
+            bad = bad or ("%s(..) on the payload iterator" % its[0]["method"], its[0]["sp"])
+        if bad:
+            ctx.violation("copy", name, "%s does not copy every payload field: %s — a field skipped here is missing from every checkpointed and restored event" % (name, bad[0]), site=bad[1])
+        else:
+            ctx.ok("copy", name, "every payload entry is inserted unconditionally")
+
+
 def run(ctx):
+    ctx.guard("copy", lambda: run_copy(ctx))
     ctx.guard("inverse", lambda: run_inverse(ctx))
     ctx.guard("lossy", lambda: run_lossy(ctx))
     ctx.guard("nan-json", lambda: run_nan(ctx))
